@@ -77,6 +77,12 @@ def ring_programs(tier):
         Un("neg", Bin("-", r2, Bin("*", q, Const(BIG)))), Bin("*", Bin("*", r2, s3), q),
         Bin("+", Bin("*", i, Const(-3)), b), Bin("-", Bin("&", r2, s3), Bin("|", q, Const(1))),
     ]
+    # the same operator applied twice with constant right operands (the
+    # shape a constant-folding shortcut would look for)
+    for op in RING:
+        for x in (Loc("Q"), i, w4):
+            a, c = (3, 2) if op == "<<" else (1000, 7)
+            shapes.append(Bin(op, Bin(op, x, Const(a)), Const(c)))
     # the destination register also occurs as an operand (aliasing)
     for d in (Reg("r", 2), Reg("sr", 3)):
         o = s3 if d.no == 2 else r2
@@ -117,6 +123,11 @@ def div_programs(tier):
               Bin("%", Bin("+", q, i), Const(10)), Bin(">>", Bin("-", s3, q), Const(3)),
               Un("abs", Bin("-", q, s3)), Bin("+", Bin("//", r2, Const(3)), Loc("Q")),
               Bin("-", Bin("%", s3, Const(7)), Const(1))]
+    # the same operator twice with constant right operands
+    for op in DIV:
+        for x in (Loc("Q"), i, w4):
+            a, c = (3, 2) if op == ">>" else (1000, 7)
+            shapes.append(Bin(op, Bin(op, x, Const(a)), Const(c)))
     for d in ds:
         for e in shapes:
             out.append((e, d))
